@@ -83,6 +83,10 @@ pub struct EpCfg {
     pub svc_ready_fail_after: Option<u32>,
     /// the application's services take (simulated) time in `shutdown()`
     pub svc_slow_shutdown: bool,
+    /// MQTT 5: successful publish acknowledgements carry a user property with a value of this many bytes and a
+    /// reason string of this many bytes (optional properties the encoder drops when they do not fit the
+    /// peer's Maximum Packet Size)
+    pub ack_props: Option<(u16, u16)>,
 }
 
 impl Default for EpCfg {
@@ -124,6 +128,7 @@ impl Default for EpCfg {
             early_senders: false,
             svc_ready_fail_after: None,
             svc_slow_shutdown: false,
+            ack_props: None,
         }
     }
 }
